@@ -19,6 +19,72 @@ fn big_data(rng: &mut Rng, n: u64) -> Vec<P> {
 }
 
 // ---------------------------------------------------------------- C04
+/// The execution graph the real scheduler derives for an acyclic pipeline on SEVERAL hosts, as
+/// an `mdag` of Proofs/NetMuxProofs.v: replicas, one demultiplexer per (block pair, host pair)
+/// with remote links, final channels per (consumer replica, previous block), one connection
+/// channel per demultiplexer. Nodes are numbered: for every block in id order, first the
+/// demultiplexers feeding it, then its replicas.
+pub fn mdag_case(sink: &mut CaseSink, p: &Pipe, cores: &[u64]) {
+    use std::collections::BTreeMap;
+    let (p2, cores2) = (p.clone(), cores.to_vec());
+    let r = crate::script::catch(move || {
+        let env = StreamContext::new(pipe::remote_config_pub(&cores2, 0, 9_000));
+        pipe::build(&env, &p2, BatchMode::fixed(1024)).for_each(|_| {});
+        env.verif_execution_graph()
+    });
+    let d = match r { Ok(d) => d, Err(_) => { sink.count("mdag_plan_rejected_by_api"); return; } };
+    type C = (u64, u64, u64);
+    // node keys: (2*block, prev block, src host, dst host) for demultiplexers, (2*block+1, host, replica, 0) for replicas
+    let mut keys: Vec<(u64, u64, u64, u64)> = vec![];
+    for b in &d.blocks { for (c, _) in &b.replicas { keys.push((2 * c.0 + 1, c.1, c.2, 0)); } }
+    for (f, t, _) in &d.links { if f.1 != t.1 { keys.push((2 * t.0, f.0, f.1, t.1)); } }
+    keys.sort(); keys.dedup();
+    let idx: BTreeMap<(u64, u64, u64, u64), usize> = keys.iter().enumerate().map(|(i, k)| (*k, i)).collect();
+    let rep_idx = |c: &C| idx[&(2 * c.0 + 1, c.1, c.2, 0)];
+    // channels: final ones per (consumer replica, previous block) in node order, then connections
+    let mut chans: Vec<(usize, Option<(C, u64)>)> = vec![]; // (consumer node, Some((replica, prev block)) for final channels)
+    let mut fin: BTreeMap<(C, u64), usize> = BTreeMap::new();
+    for b in &d.blocks {
+        for (c, _) in &b.replicas {
+            for (ef, et, _) in &d.edges { if *et == b.id { fin.insert((*c, *ef), chans.len()); chans.push((rep_idx(c), Some((*c, *ef)))); } }
+        }
+    }
+    let mut conn: BTreeMap<(u64, u64, u64, u64), usize> = BTreeMap::new();
+    for k in &keys { if k.0 % 2 == 0 { conn.insert(*k, chans.len()); chans.push((idx[k], None)); } }
+    let mut cfgs: Vec<String> = vec![];
+    let mut nterms: Vec<String> = vec![];
+    for k in &keys {
+        if k.0 % 2 == 0 {
+            let n = d.links.iter().filter(|(f, t, _)| f.0 == k.1 && f.1 == k.2 && t.0 * 2 == k.0 && t.1 == k.3).count();
+            cfgs.push(format!("(Build_rcfg (KDemux {}%nat) [] [])", conn[k]));
+            nterms.push(format!("{}%nat", n));
+        } else {
+            let c: C = ((k.0 - 1) / 2, k.1, k.2);
+            let outs: Vec<String> = d.links.iter().filter(|(f, _, _)| *f == c).map(|(f, t, _)| {
+                let fch = fin[&(*t, f.0)];
+                let w = if f.1 == t.1 { fch } else { conn[&(2 * t.0, f.0, f.1, t.1)] };
+                format!("({}%nat, {}%nat)", w, fch)
+            }).collect();
+            let ins: Vec<usize> = d.edges.iter().filter(|(_, et, _)| *et == c.0).map(|(ef, _, _)| fin[&(c, *ef)]).collect();
+            let nprod = |ch: usize| { let (rc, pb) = chans[ch].1.unwrap(); d.links.iter().filter(|(f, t, _)| *t == rc && f.0 == pb).count() };
+            let kind = match ins.len() {
+                0 => "KSrc".to_string(),
+                1 => format!("(KOp1 {}%nat {}%nat)", ins[0], nprod(ins[0])),
+                2 => format!("(KOp2 {}%nat {}%nat {}%nat {}%nat)", ins[0], nprod(ins[0]), ins[1], nprod(ins[1])),
+                _ => "(KDemux 0%nat)".to_string(),
+            };
+            cfgs.push(format!("(Build_rcfg {} [{}] [{}])", kind, outs.join("; "), outs.join("; ")));
+            nterms.push("0%nat".to_string());
+        }
+    }
+    let cons: Vec<String> = chans.iter().map(|(n, _)| format!("{}%nat", n)).collect();
+    let term = format!("(KMDag (Build_mdump [{}] [{}] [{}]))", cfgs.join("; "), cons.join("; "), nterms.join("; "));
+    sink.count("mdag_graph");
+    sink.count_n("mdag_demultiplexers", keys.iter().filter(|k| k.0 % 2 == 0).count() as u64);
+    sink.push(term, json!({"kind": "execution graph of an acyclic job on several hosts (with demultiplexers)", "pipeline": p.coq(), "cores": cores,
+        "nodes": keys.len(), "channels": chans.len(), "links": d.links.len()}), keys.len() >= 6);
+}
+
 /// The execution graph the real scheduler derives for an acyclic pipeline on `local(par)`,
 /// as a Coq `gdump` (C04: premise `dag_ok` of the network theorems).
 pub fn dag_case(sink: &mut CaseSink, p: &Pipe, par: u64) {
@@ -90,6 +156,15 @@ pub fn generate_c04(opts: &Opts, sink: &mut CaseSink) {
             sink.wrap = Some(("KJob".into(), "C01".into()));
         }
     }
+    // multi-host graphs (demultiplexers), incl. layouts with more than 16 producers per input
+    sink.wrap = None;
+    for i in 0..(if opts.thorough { 120 } else { 16 }) {
+        let p = pipe::random_pipe(&mut rng, 2);
+        if !p.has_loop() {
+            let cores: Vec<u64> = if i % 4 == 0 { vec![6, 6, 6] } else { (0..rng.range(2, 3)).map(|_| rng.range(1, 4) as u64).collect() };
+            mdag_case(sink, &p, &cores);
+        }
+    }
     // more graphs: random acyclic pipelines, several parallelisms each
     sink.wrap = None;
     for _ in 0..(if opts.thorough { 300 } else { 40 }) {
@@ -99,7 +174,7 @@ pub fn generate_c04(opts: &Opts, sink: &mut CaseSink) {
         }
     }
 }
-pub const RULE_C04: &str = "the engineered two-host hash join of known finding F13 (2 + 20 cores, fixed(2) batches; thorough: also its control without the early flush and a 2 + 14 core layout), then whole jobs on the real engine: empty and tiny inputs, inputs of 120..400 elements with batch size 1/3 (more than the total channel capacity: real back-pressure), split diamonds closed by merge and by outer join, broadcast joins, merges with an empty side, replay loops with internal shuffles, plus random pipelines; local 1..8 and 2..3-host deployments; watchdog 90 s; for every acyclic pipeline and 40 (thorough 300) further random ones the execution graph derived by the real scheduler on local(1..8), checked against dag_okb (premise of C04_dag_*). A run counts as good only if every host returned, exactly one sink handle held a result and the result is complete. Non-trivial: >=2 input elements and >=2 runs; distinct = distinct case terms";
+pub const RULE_C04: &str = "the engineered two-host hash join of known finding F13 (2 + 20 cores, fixed(2) batches; thorough: also its control without the early flush and a 2 + 14 core layout), then whole jobs on the real engine: empty and tiny inputs, inputs of 120..400 elements with batch size 1/3 (more than the total channel capacity: real back-pressure), split diamonds closed by merge and by outer join, broadcast joins, merges with an empty side, replay loops with internal shuffles, plus random pipelines; local 1..8 and 2..3-host deployments; watchdog 90 s; for every acyclic pipeline and 40 (thorough 300) further random ones the execution graph derived by the real scheduler on local(1..8), checked against dag_okb (premise of C04_dag_*); the same on 2..3-host layouts (16, thorough 120 graphs; every fourth on 3 x 6 cores) against mstruct_okb and the capacity condition (premise of C04_multi_host_*). A run counts as good only if every host returned, exactly one sink handle held a result and the result is complete. Non-trivial: >=2 input elements and >=2 runs; distinct = distinct case terms";
 
 // ---------------------------------------------------------------- C10
 /// Loops with a side input: a join inside the loop body whose loop side changes from round to
